@@ -57,6 +57,24 @@ def r1(ctx, enq: Fn, purge_nodes):
     m = enq.module
     maxv = ctx.repo.try_fold(m, m.get_const_expr("MAX_MESSAGE_QUEUE_SIZE"))
     ctx.check(maxv == 10, R, "const:MAX_MESSAGE_QUEUE_SIZE", m, m.assign_nodes["MAX_MESSAGE_QUEUE_SIZE"], "10 pending messages", repr(maxv))
+    # the only bound of the queue is the explicit test below: a container that discards on its own (deque(maxlen=...)) turns the
+    # re-queue of a failed write on a full queue into the silent loss of the newest held message
+    sci = m.get_class("AirTouchSocket")
+    ctors = []
+    for mn, mnode in sci.methods.items():
+        for a_ in ast.walk(mnode):
+            tg = a_.targets[0] if isinstance(a_, ast.Assign) and len(a_.targets) == 1 else (a_.target if isinstance(a_, ast.AnnAssign) else None)
+            if tg is not None and dotted(tg) == "self._message_queue" and getattr(a_, "value", None) is not None:
+                ctors.append((mn, a_))
+    ctx.require(ctors, "socket.AirTouchSocket: no assignment to self._message_queue")
+    for mn, a_ in ctors:
+        v = a_.value
+        okc = isinstance(v, ast.Call) and (dotted(v.func) or "").split(".")[-1] == "deque" and len(v.args) <= 1
+        if okc:
+            for k in v.keywords:
+                if k.arg != "maxlen" or ctx.repo.try_fold(m, k.value) is not None or not (isinstance(k.value, ast.Constant) and k.value.value is None):
+                    okc = False
+        ctx.check(okc, R, f"{mn}:queue-is-an-unbounded-deque", m, a_, "the pending queue is a plain deque with no maxlen: nothing is ever discarded except by the purge of expired entries and the explicit overflow error", norm_text(v)[:100])
     appends = enq.calls("_message_queue.append")
     ctx.require(appends, "socket._enqueue_message: no append (see C01.R1)")
     cap_tests = []
